@@ -467,6 +467,205 @@ theorem exact_list_ascending (hay needle : Bytes) (s0 : Nat) :
   rw [List.pairwise_map]
   exact (List.Pairwise.filter _ (occ_sorted hay needle)).imp (fun h => Int.ofNat_lt.2 h)
 
+
+/-! ### the exact result under a limit (`max_offset > 0`)
+
+The code tests `max_offset` twice, against two different quantities:
+* `pos > max_offset` before a block is read — `pos` is the FILE offset of the block start;
+* `p > max_offset` for a hit — `p` is the index in the search buffer `saved + block`, NOT a file offset.
+So what is reported depends on how the file is cut into blocks, i.e. on `B = io.DEFAULT_BUFFER_SIZE` and on the start. -/
+
+/-- index (counted from the start position `s0`) of the block whose search buffer shows the occurrence at `o`:
+the block that holds its LAST byte (`n = |needle|`) -/
+def blockOf (B n s0 o : Nat) : Nat := (o + n - 1 - s0) / B
+
+/-- file offset of the first byte of the search buffer `saved + block` of block `j`
+(`saved` = the last `min (n-1) (j*B)` bytes in front of the block) -/
+def bufStart (B n s0 j : Nat) : Nat := s0 + (j * B - (n - 1))
+
+/-- is the occurrence at file offset `o` (`o ≥ s0`) reported under `max_offset = m`? -/
+def limitKeeps (B n s0 m o : Nat) : Bool :=
+  decide (s0 + blockOf B n s0 o * B ≤ m)                               -- its block is read: the block START is `≤ max_offset`
+    && decide (o - bufStart B n s0 (blockOf B n s0 o) ≤ m)             -- its index in `saved + block` is `≤ max_offset`
+
+/-- the same test relative to a loop state (`pos` = position of the next block, `sl = |saved|`) -/
+def keepRel (B n m pos sl o : Nat) : Bool :=
+  decide (pos + (o + n - 1 - pos) / B * B ≤ m)
+    && decide (o - (pos + (o + n - 1 - pos) / B * B - min (n - 1) (sl + (o + n - 1 - pos) / B * B)) ≤ m)
+
+theorem keepRel_cur {B n m pos sl o : Nat} (h : o + n - 1 - pos < B) (hsl : sl ≤ n - 1) :
+    keepRel B n m pos sl o = (decide (pos ≤ m) && decide (o - (pos - sl) ≤ m)) := by
+  unfold keepRel
+  simp only [Nat.div_eq_of_lt h, Nat.zero_mul, Nat.add_zero]
+  rw [Nat.min_eq_right hsl]
+
+theorem keepRel_next {B n m pos sl o : Nat} (hB : 0 < B) (h : pos + B ≤ o + n - 1) :
+    keepRel B n m pos sl o = keepRel B n m (pos + B) (min (n - 1) (sl + B)) o := by
+  unfold keepRel
+  have e : o + n - 1 - pos = (o + n - 1 - (pos + B)) + B := by omega
+  rw [e, Nat.add_div_right _ hB]
+  generalize (o + n - 1 - (pos + B)) / B = q
+  have : (q + 1) * B = q * B + B := Nat.succ_mul q B
+  rw [this]
+  generalize q * B = t
+  have h1 : pos + (t + B) = pos + B + t := by omega
+  have h2 : min (n - 1) (sl + (t + B)) = min (n - 1) (min (n - 1) (sl + B) + t) := by omega
+  rw [h1, h2]
+
+theorem limitKeeps_eq_keepRel (B n s0 m o : Nat) : limitKeeps B n s0 m o = keepRel B n m s0 0 o := by
+  unfold limitKeeps keepRel blockOf bufStart
+  generalize (o + n - 1 - s0) / B * B = t
+  have : s0 + (t - (n - 1)) = s0 + t - min (n - 1) (0 + t) := by omega
+  rw [this]
+
+/-- **the loop under a limit**, for any state satisfying the loop invariant. -/
+theorem needleLoop_limit (B : Nat) (hB : 1 ≤ B) (needle : Bytes) (hn : needle ≠ []) (m : Nat) (hm : 0 < m)
+    (f : PyFile) (saved : Bytes) :
+    ∀ (a : Nat), a + saved.length = f.pos → f.data.drop a = saved ++ f.data.drop f.pos →
+      saved.length < needle.length →
+      (needleLoop B needle m f saved).1
+        = (((occ f.data needle).filter (fun i => a ≤ i)).filter
+            (keepRel B needle.length m f.pos saved.length)).map Int.ofNat := by
+  fun_induction needleLoop B needle m f saved with
+  | case1 f saved pos hcut =>
+    intro a ha hw hs
+    have hp : pos = f.pos := rfl
+    have : ((occ f.data needle).filter (fun i => a ≤ i)).filter (keepRel B needle.length m f.pos saved.length) = [] := by
+      rw [List.filter_eq_nil_iff]
+      intro o _
+      unfold keepRel
+      simp only [Bool.and_eq_true, decide_eq_true_eq, not_and]
+      intro h1
+      have := Nat.le_add_right f.pos ((o + needle.length - 1 - f.pos) / B * B)
+      omega
+    rw [this]; rfl
+  | case2 f saved pos hcut hblk =>
+    intro a ha hw hs
+    obtain ⟨hX, hlen⟩ := read_empty f B hB hblk
+    have hfil : (occ f.data needle).filter (fun i => a ≤ i) = [] := by
+      rw [List.filter_eq_nil_iff]
+      intro i hi
+      simp only [decide_eq_true_eq]
+      have h1 := (mem_occ.1 hi).1
+      have h2 := congrArg List.length hw
+      rw [hX] at h2
+      simp only [List.length_drop, List.append_nil] at h2
+      omega
+    rw [hfil]; rfl
+  | case3 f saved pos hcut hblk block d offs rest ih =>
+    intro a ha hw hs
+    have hp : pos = f.pos := rfl
+    have hpm : f.pos ≤ m := by omega
+    have hn' : 0 < needle.length := List.length_pos_iff.mpr hn
+    obtain ⟨hale, hbpos, hble, hw', hdlen, hk, hk2, i1, i2, i3⟩ :=
+      step_inv hn' ha hw hs hblk block d (d.length - (needle.length - 1)) rfl rfl rfl
+    have hbB : block.length ≤ B := PyFile.read_length_le f B
+    have hbshort : block.length < B → f.pos + block.length = f.data.length := by
+      intro hlt
+      have hr : block = (f.data.drop f.pos).take B := PyFile.read_nonneg f B
+      have := congrArg List.length hr
+      simp only [List.length_take, List.length_drop] at this
+      omega
+    have ih' := ih (a + (d.length - (needle.length - 1)))
+    simp only [PyFile.read_data, PyFile.read_pos] at ih'
+    have hrest : rest.1 = _ := ih' i1 i2 i3
+    have hoffs : offs = _ := findLoop_eq d needle m pos saved.length 0
+    show offs ++ rest.1 = _
+    rw [hrest, hoffs, ← occ_split hn' hale hw' hk hk2 rfl, List.filter_append, List.map_append]
+    congr 1
+    · -- the hits of this block
+      rw [List.filter_map, List.map_map]
+      have hf : (occ d needle).filter (fun p => 0 ≤ p ∧ (m = 0 ∨ p ≤ m))
+          = (occ d needle).filter (keepRel B needle.length m f.pos saved.length ∘ fun p => a + p) := by
+        apply List.filter_congr
+        intro p hpd
+        have hb := (mem_occ.1 hpd).1
+        simp only [Function.comp]
+        rw [keepRel_cur (by omega) (by omega)]
+        have e : a + p - (f.pos - saved.length) = p := by omega
+        rw [e]
+        simp only [hpm, decide_true, Bool.true_and]
+        congr 1
+        apply propext
+        constructor
+        · rintro ⟨_, h | h⟩ <;> omega
+        · intro h; exact ⟨Nat.zero_le _, Or.inr h⟩
+      rw [hf]
+      apply List.map_congr_left
+      intro p _
+      show (pos : Int) + (p : Int) - (saved.length : Int) = ((a + p : Nat) : Int)
+      omega
+    · -- the later blocks
+      congr 1
+      apply List.filter_congr
+      intro o ho
+      simp only [List.mem_filter, decide_eq_true_eq] at ho
+      obtain ⟨hocc, hko⟩ := ho
+      have hend := (mem_occ.1 hocc).1
+      have hfull : block.length = B := by
+        apply Classical.byContradiction
+        intro hne
+        have := hbshort (by omega)
+        omega
+      have hsl : (nextSaved needle d).length = min (needle.length - 1) (saved.length + B) := by omega
+      show keepRel B needle.length m (f.pos + block.length) (nextSaved needle d).length o = _
+      rw [hfull, hsl, ← keepRel_next (by omega) (by omega)]
+
+
+/-- where the loop leaves the file position under a limit `m > 0` (`L` = file size, `pos` = position it starts from):
+blocks are read while their start is `≤ m` and `< L`; the last block read may end beyond `m` -/
+def limitEnd (B m L pos : Nat) : Nat :=
+  if pos > m ∨ pos ≥ L then pos else min L (pos + ((m - pos) / B + 1) * B)
+
+theorem needleLoop_limit_file (B : Nat) (hB : 1 ≤ B) (needle : Bytes) (m : Nat) (hm : 0 < m) (f : PyFile) (saved : Bytes) :
+    (needleLoop B needle m f saved).2 = { f with pos := limitEnd B m f.data.length f.pos } := by
+  fun_induction needleLoop B needle m f saved with
+  | case1 f saved pos hcut =>
+    have hp : pos = f.pos := rfl
+    unfold limitEnd
+    rw [if_pos (Or.inl (by omega))]
+  | case2 f saved pos hcut hblk =>
+    obtain ⟨_, hlen⟩ := read_empty f B hB hblk
+    unfold limitEnd
+    rw [if_pos (Or.inr hlen), read_snd, hblk]
+    rfl
+  | case3 f saved pos hcut hblk block d offs rest ih =>
+    have hp : pos = f.pos := rfl
+    have hpm : f.pos ≤ m := by omega
+    have hr : block = (f.data.drop f.pos).take B := PyFile.read_nonneg f B
+    have hbl : block.length = min B (f.data.length - f.pos) := by
+      have := congrArg List.length hr
+      simpa only [List.length_take, List.length_drop] using this
+    have hbpos : 0 < block.length := List.length_pos_iff.mpr hblk
+    show rest.2 = _
+    rw [ih]
+    simp only [PyFile.read_data, PyFile.read_pos]
+    show ({ (f.read (B : Int)).2 with pos := limitEnd B m f.data.length (f.pos + block.length) } : PyFile) = _
+    have hkey : limitEnd B m f.data.length (f.pos + block.length) = limitEnd B m f.data.length f.pos := by
+      have hge : ∀ t : Nat, B ≤ (t + 1) * B := fun t => Nat.le_mul_of_pos_left B (Nat.succ_pos t)
+      unfold limitEnd
+      rw [if_neg (c := f.pos > m ∨ f.pos ≥ f.data.length) (by omega)]
+      by_cases hshort : block.length < B
+      · have := hge ((m - f.pos) / B)
+        rw [if_pos (Or.inr (by omega))]
+        omega
+      · have hfull : block.length = B := by omega
+        rw [hfull]
+        by_cases hbm : f.pos + B > m
+        · have ht : (m - f.pos) / B = 0 := Nat.div_eq_of_lt (by omega)
+          rw [if_pos (Or.inl hbm), ht]
+          omega
+        · have e : m - f.pos = (m - (f.pos + B)) + B := by omega
+          rw [e, Nat.add_div_right _ (by omega)]
+          generalize (m - (f.pos + B)) / B = t
+          have h2 : (t + 1 + 1) * B = (t + 1) * B + B := Nat.succ_mul (t + 1) B
+          have := hge t
+          by_cases hL : f.pos + B ≥ f.data.length
+          · rw [if_pos (Or.inr hL)]; omega
+          · rw [if_neg (by omega)]; omega
+    rw [hkey]
+    rfl
+
 /-! ### ArtifactKit scanner -/
 
 theorem u32_eq (d : Bytes) : u32 d = (u32le d : Int) := by
